@@ -232,4 +232,3 @@ func TestVerif_C19_concurrent(t *testing.T) {
 		})
 	})
 }
-
